@@ -71,9 +71,9 @@ class StandIn:
                     samples.append(json.loads(key))
             try:
                 fail = self.check(case)
-            except Exception as e:          # the oracle itself must not crash
+            except Exception as e:          # the oracle / harness itself crashed: a checker error, never a verdict
                 import traceback
-                fail = "exception: %r\n%s" % (e, traceback.format_exc()[-1500:])
+                return {"status": "error", "error": "stand-in %s crashed on case %s\n%s" % (self.name, key[:600], traceback.format_exc()[-2500:])}
             if fail:
                 return {"status": "fail", "failure": str(fail)[:3000], "case": json.loads(key), "evaluations": n,
                         "distinct": len(seen), "samples": samples, "bound": self.bound}
@@ -252,3 +252,284 @@ StandIn("c12_natural_breaks", lambda rng, tier: _c12_cases(rng, tier, ops=("natu
               "k<=4; compiled (JIT on: the interpreted DP rounds differently)")
 StandIn("c12_natural_breaks_near_duplicates", lambda rng, tier: _c12_cases(rng, tier, ops=("natural_breaks",), jitter=(1e-7,)), _c12_check,
         bound="as c12_natural_breaks, every value perturbed by < 1e-7 so that distinct values differ by ~1e-8 relative")
+
+
+# =========================================================================== C10 / C01 / C11 over the API catalogue
+def _snapshot(r):
+    import copy
+    data = np.array(r.data.compute() if hasattr(r.data, "compute") else r.data, copy=True)
+    return dict(data=data, dtype=str(r.dtype), coords={k: np.array(v.values, copy=True) for k, v in r.coords.items()},
+                attrs=copy.deepcopy(dict(r.attrs)), dims=tuple(r.dims), name=r.name, shape=tuple(r.shape))
+
+
+def _arr_eq(a, b):
+    a, b = np.asarray(a), np.asarray(b)
+    if a.shape != b.shape:
+        return False
+    if a.dtype.kind == "f" or b.dtype.kind == "f":
+        return bool(np.all((a == b) | (np.isnan(a) & np.isnan(b))))
+    return bool(np.array_equal(a, b))
+
+
+def _unchanged(r, snap, allow_dtype_widening=False):
+    cur = _snapshot(r)
+    if not _arr_eq(cur["data"], snap["data"]):
+        return "values of the input changed"
+    if cur["dtype"] != snap["dtype"] and not allow_dtype_widening:
+        return "dtype of the input changed %s -> %s" % (snap["dtype"], cur["dtype"])
+    if set(cur["coords"]) != set(snap["coords"]) or any(not _arr_eq(cur["coords"][k], snap["coords"][k]) for k in snap["coords"]):
+        return "coordinates of the input changed"
+    if cur["attrs"] != snap["attrs"]:
+        return "attrs of the input changed: %r -> %r" % (snap["attrs"], cur["attrs"])
+    if cur["dims"] != snap["dims"] or cur["name"] != snap["name"]:
+        return "dims/name of the input changed"
+    return None
+
+
+def _build(case):
+    import random as _random
+    from contracts import api_cases as ac
+    c = ac.CASES[case["case"]]
+    rng = _random.Random(case["seed"])
+    ac.CHUNK_OVERRIDE = case.get("chunks")
+    try:
+        return c, c["build"](rng, case["dtype"], case["layout"], case["backend"])
+    finally:
+        ac.CHUNK_OVERRIDE = None
+
+
+def _c10_cases(rng, tier):
+    from contracts import api_cases as ac
+    names = sorted(ac.CASES)
+    while True:
+        n = rng.choice(names)
+        c = ac.CASES[n]
+        if c["jit"]:
+            continue
+        yield {"case": n, "dtype": rng.choice(c["dtypes"]), "layout": rng.choice(ac.LAYOUTS), "backend": rng.choice(c["backends"]),
+               "seed": rng.randrange(10 ** 6)}
+
+
+def _c10_check(case):
+    import warnings
+    import xarray as xr
+    c, (fn, args, kwargs, rasters) = _build(case)
+    snaps = [_snapshot(r) for r in rasters]
+    with warnings.catch_warnings():
+        warnings.simplefilter("ignore")
+        import io, contextlib
+        with contextlib.redirect_stdout(io.StringIO()):
+            out = fn(*args, **kwargs)
+    name = case["case"]
+    for r, s in zip(rasters, snaps):
+        why = _unchanged(r, s, allow_dtype_widening=(name == "viewshed"))
+        if why:
+            return "%s(%s, %s, %s): %s" % (name, case["dtype"], case["layout"], case["backend"], why)
+    if isinstance(out, xr.DataArray):
+        if case["backend"] == "numpy" and name not in ("trim", "crop"):
+            for r in rasters:
+                if isinstance(out.data, np.ndarray) and isinstance(r.data, np.ndarray) and np.shares_memory(out.data, r.data):
+                    return "%s: output shares memory with an input" % name
+        if case["backend"] == "numpy" and name not in ("trim", "crop") and isinstance(out.data, np.ndarray) and out.data.flags.writeable \
+                and out.size:
+            # writing to the output never changes the input
+            before = [np.array(r.data, copy=True) for r in rasters]
+            try:
+                out.data[...] = 0
+            except Exception:
+                pass
+            for r, b in zip(rasters, before):
+                if not _arr_eq(r.data, b):
+                    return "%s: writing to the output changed an input" % name
+        if c["shape_preserving"]:
+            src = rasters[0]
+            s0 = snaps[0]
+            if tuple(out.shape) != s0["shape"] or tuple(out.dims) != s0["dims"]:
+                return "%s: output shape/dims %s %s differ from the input's %s %s" % (name, out.shape, out.dims, s0["shape"], s0["dims"])
+            if set(out.coords) != set(s0["coords"]) or any(not _arr_eq(out.coords[k].values, s0["coords"][k]) for k in s0["coords"]):
+                return "%s: output coordinates %s differ from the input's %s" % (name, sorted(out.coords), sorted(s0["coords"]))
+            oa = dict(out.attrs)
+            if name == "hotspots":
+                oa.pop("unit", None)
+            if oa != s0["attrs"]:
+                return "%s: output attrs %r differ from the input's %r" % (name, oa, s0["attrs"])
+            is_dask_in = hasattr(src.data, "compute")
+            if is_dask_in != hasattr(out.data, "compute"):
+                return "%s: array backend changed (input dask=%s, output dask=%s)" % (name, is_dask_in, hasattr(out.data, "compute"))
+    return None
+
+
+StandIn("c10_inputs_untouched", _c10_cases, _c10_check,
+        bound="random calls from the API catalogue (contracts/api_cases.py): public functions x dtype {int8..uint64,float32,float64} x "
+              "layout {C,F,non-contiguous view,read-only} x backend {numpy,dask}; before/after snapshots, np.shares_memory, "
+              "write-to-output probe; NUMBA_DISABLE_JIT=1")
+
+
+# ---------------------------------------------------------------- C01
+def _compositions(n, rng):
+    parts = []
+    left = n
+    while left > 0:
+        k = rng.randint(1, left)
+        parts.append(k)
+        left -= k
+    return tuple(parts)
+
+
+C01_OPS = ["slope", "aspect", "curvature", "hillshade", "binary", "reclassify", "equal_interval", "convolution_2d", "focal_apply", "focal_stats",
+           "hotspots", "focal_mean", "arvi", "evi", "gci", "nbr", "nbr2", "ndvi", "ndmi", "savi", "sipi", "ebbi", "true_color",
+           "perlin", "generate_terrain"]
+C01_GLOBAL = {"hotspots", "true_color", "perlin", "generate_terrain"}      # a global mean/min/max is reduced in a different order
+
+
+def _c01_cases(rng, tier):
+    from contracts import api_cases as ac
+    while True:
+        n = rng.choice(C01_OPS)
+        c = ac.CASES[n]
+        seed = rng.randrange(10 ** 6)
+        # the builder draws the shape first; replicate to choose a chunking of that shape
+        import random as _random
+        r2 = _random.Random(seed)
+        yield {"case": n, "dtype": rng.choice(c["dtypes"]), "layout": "C", "seed": seed,
+               "chunk_seed": rng.randrange(10 ** 6), "scheduler": rng.choice(["synchronous", "threads1", "threads4", "threads16"])}
+
+
+def _c01_check(case):
+    import warnings
+    import dask
+    import random as _random
+    import xarray as xr
+    from contracts import api_cases as ac
+    base = dict(case, backend="numpy")
+    c, (fn, args, kwargs, rasters) = _build(base)
+    shape = rasters[0].shape
+    crng = _random.Random(case["chunk_seed"])
+    chunks = (_compositions(shape[0], crng), _compositions(shape[1], crng))
+    with warnings.catch_warnings():
+        warnings.simplefilter("ignore")
+        try:
+            ref = fn(*args, **kwargs)
+        except Exception as e:
+            return None       # inputs on which the NumPy path raises are outside the equality claim
+        c2, (fn2, args2, kwargs2, rasters2) = _build(dict(case, backend="dask", chunks=chunks))
+        out = fn2(*args2, **kwargs2)
+        if not hasattr(out.data, "compute"):
+            return "%s: result of a Dask-backed call is not Dask-backed (%s)" % (case["case"], type(out.data).__name__)
+        sch = case["scheduler"]
+        kw = {"scheduler": "synchronous"} if sch == "synchronous" else {"scheduler": "threads", "num_workers": int(sch[7:])}
+        try:
+            got = out.data.compute(**kw)
+        except Exception as e:
+            return "%s chunks=%s: computing the Dask result raised %r (NumPy path succeeded)" % (case["case"], chunks, e)
+    # exact, except: global reductions in a different order (property statement), and the nan-reducers of the focal
+    # operators, which see a NaN-padded instead of a clipped window at block borders (summation order -> last-ulp rounding)
+    tol = 1e-5 if case["case"] in C01_GLOBAL else (1e-12 if case["case"] in ("focal_mean", "focal_apply", "focal_stats") else 0.0)
+    refv = np.asarray(ref.data)
+    if refv.shape != got.shape:
+        return "%s chunks=%s: shape %s vs NumPy %s" % (case["case"], chunks, got.shape, refv.shape)
+    if not same(got, refv, tol):
+        bad = np.argwhere(~((got == refv) | (np.isnan(got.astype("f8")) & np.isnan(refv.astype("f8")))))
+        i = tuple(bad[0]) if len(bad) else None
+        return "%s dtype=%s chunks=%s scheduler=%s: Dask result differs from NumPy at %s: %r vs %r" % (
+            case["case"], case["dtype"], chunks, sch, i, got[i] if i else None, refv[i] if i else None)
+    return None
+
+
+StandIn("c01_dask_equals_numpy", _c01_cases, _c01_check,
+        bound="random rasters 3..6 x 3..7 (NaN cells, int/float dtypes, non-square cells), every operation of the property that accepts "
+              "Dask, random compositions of H and of W as chunks (incl. 1-cell chunks), schedulers {synchronous, threads x 1/4/16}; "
+              "NUMBA_DISABLE_JIT=1")
+
+
+# ---------------------------------------------------------------- C11: history independence vs a fresh interpreter
+C11_OPS = ["proximity", "allocation", "direction", "focal_apply", "slope", "nbr", "reclassify", "perlin", "generate_terrain",
+           "zonal_stats", "regions", "hillshade", "focal_mean", "binary", "convolution_2d"]
+
+
+def digest(out):
+    import hashlib
+    import xarray as xr
+    h = hashlib.sha256()
+    if isinstance(out, xr.DataArray):
+        v = out.data.compute() if hasattr(out.data, "compute") else out.data
+        v = np.ascontiguousarray(np.asarray(v))
+        h.update(str(v.dtype).encode() + str(v.shape).encode() + v.tobytes())
+        for k in sorted(out.coords):
+            h.update(k.encode() + np.ascontiguousarray(out.coords[k].values).tobytes())
+        h.update(repr(sorted(out.attrs.items())).encode())
+        return h.hexdigest()[:20] + " " + str(v.dtype) + str(v.shape)
+    try:
+        import pandas as pd
+        if hasattr(out, "compute") and not isinstance(out, pd.DataFrame):
+            out = out.compute()
+        if isinstance(out, pd.DataFrame):
+            return hashlib.sha256(out.to_json().encode()).hexdigest()[:20]
+    except Exception:
+        pass
+    return hashlib.sha256(repr(out).encode()).hexdigest()[:20]
+
+
+def run_single(case):
+    """evaluate one catalogue call in this process; used by the fresh-interpreter reference"""
+    import warnings, io, contextlib
+    threads = case.get("threads")
+    if threads and case.get("backend") == "dask":
+        import dask
+        dask.config.set(scheduler="threads", num_workers=threads)
+    c, (fn, args, kwargs, rasters) = _build(case)
+    with warnings.catch_warnings():
+        warnings.simplefilter("ignore")
+        with contextlib.redirect_stdout(io.StringIO()):
+            try:
+                out = fn(*args, **kwargs)
+            except Exception as e:
+                return "raised %s" % type(e).__name__
+    return digest(out)
+
+
+def _c11_cases(rng, tier):
+    from contracts import api_cases as ac
+    while True:
+        seq = []
+        for _ in range(rng.randint(3, 5)):
+            n = rng.choice(C11_OPS)
+            c = ac.CASES[n]
+            dts = [d for d in c["dtypes"] if d in ("float64", "float32", "int32", "int64", "uint8")]
+            seq.append({"case": n, "dtype": rng.choice(dts), "layout": "C", "backend": rng.choice(c["backends"]),
+                        "seed": rng.randrange(10 ** 6), "threads": rng.choice([1, 4, 16])})
+        if rng.random() < 0.5:
+            seq.append(dict(seq[0]))      # repeat an earlier call after the others
+        yield {"sequence": seq}
+
+
+def _c11_check(case):
+    import os, subprocess, sys, json as _json
+    import concurrent.futures as cf
+    here = os.path.dirname(os.path.abspath(__file__))
+    runner = os.path.join(os.path.dirname(here), "pyvc", "api_runner.py")
+    seq = case["sequence"]
+    mine = [run_single(dict(c, threads=None)) for c in seq]          # this process carries the history of all earlier cases
+
+    def fresh(c):
+        env = dict(os.environ)
+        env["NUMBA_NUM_THREADS"] = str(c.get("threads") or 1)
+        p = subprocess.run([sys.executable, runner, "--single", _json.dumps(c)], capture_output=True, text=True, env=env, timeout=900)
+        lines = [l for l in p.stdout.strip().splitlines() if l.strip()]
+        if p.returncode != 0 or not lines:
+            raise RuntimeError("fresh interpreter failed: %s" % p.stderr[-1500:])
+        return _json.loads(lines[-1])["digest"]
+    with cf.ThreadPoolExecutor(8) as pool:
+        refs = list(pool.map(fresh, seq))
+    for k, (a, b, c) in enumerate(zip(mine, refs, seq)):
+        if a != b:
+            return "call #%d of the sequence (%s %s %s seed=%d) gives %s after the earlier calls but %s in a fresh interpreter (threads=%s)" % (
+                k, c["case"], c["dtype"], c["backend"], c["seed"], a, b, c.get("threads"))
+    return None
+
+
+StandIn("c11_history_vs_fresh_process", _c11_cases, _c11_check,
+        bound="random sequences of 3-6 catalogue calls (proximity family with varying targets/max_distance/metric/mode, focal apply "
+              "with varying kernels, classifiers, generators, zonal stats, ...) executed in one long-lived process (history accumulates "
+              "over all cases) and compared bit-for-bit, call by call, with a fresh interpreter running that call alone under "
+              "1/4/16 Numba/Dask threads; JIT on")
